@@ -3,7 +3,7 @@
 TIERS = {
     "C07": {
         "quick": {"cases": 3000, "min_steps": 20, "max_steps": 60, "wall": 900, "echo": 32, "shrink_s": 25},
-        "thorough": {"cases": 80000, "min_steps": 20, "max_steps": 80, "wall": 7200, "echo": 128, "shrink_s": 40},
+        "thorough": {"cases": 150000, "min_steps": 20, "max_steps": 80, "wall": 7200, "echo": 128, "shrink_s": 40},
     },
     "C17": {
         "quick": {"cases": 24000, "configs": 4, "wall": 600},
@@ -15,7 +15,7 @@ TIERS = {
     },
     "C01": {
         "quick": {"cases": 30000, "m_seeded": 3, "flip_n": 12, "wall": 600, "echo": 48},
-        "thorough": {"cases": 150000, "m_seeded": 16, "flip_n": 24, "wall": 7200, "echo": 256},
+        "thorough": {"cases": 600000, "m_seeded": 12, "flip_n": 24, "wall": 7200, "echo": 256},
     },
     "C09": {
         "quick": {"cases": 16000, "m_seeded": 3, "flip_n": 16, "wall": 600, "echo": 64},
